@@ -26,21 +26,22 @@ func (r *vpReader) Read(p []byte) (int, error) {
 // VP_C13_dimacs: ParseCNF on a DIMACS text whose body bytes (signs, digits,
 // separators) are symbolic; the parsed problem must have exactly the models of
 // the text.
-func VP_C13_dimacs() {
+// vpGenDimacs builds a DIMACS text whose body bytes (signs, digits,
+// separators) are symbolic, together with the clauses it denotes.
+func vpGenDimacs() (data []byte, orig [][]int, declared int, m int) {
 	n := zzvp.Param("n", 2)
-	declared := n + zzvp.Choose("extra", 2) // declared-but-unused variables
-	m := zzvp.Choose("m", zzvp.Param("m", 2)+1)
+	declared = n + zzvp.Choose("extra", 2) // declared-but-unused variables
+	m = zzvp.Choose("m", zzvp.Param("m", 2)+1)
 	K := zzvp.Param("k", 2)
-	var data []byte
 	if zzvp.Choose("comment-first", 2) == 1 {
 		data = append(data, []byte("c a comment line\n")...)
 	}
 	data = append(data, []byte(fmt.Sprintf("p cnf %d %d\n", declared, m))...)
-	var orig [][]int
 	for j := 0; j < m; j++ {
 		k := zzvp.Choose("k", K+1)
 		cl := make([]int, k)
-		if zzvp.Choose("comment", 3) == 1 {
+		rich := zzvp.Param("layout", 1) == 1
+		if rich && zzvp.Choose("comment", 3) == 1 {
 			data = append(data, []byte("c another comment\n")...)
 		}
 		for i := 0; i < k; i++ {
@@ -54,12 +55,16 @@ func VP_C13_dimacs() {
 			sep := zzvp.Byte("sep", 9, 32)
 			zzvp.Assume(zzvp.Or(sep == ' ', zzvp.Or(sep == '\t', sep == '\n')))
 			data = append(data, sep)
-			if zzvp.Choose("sep2", 3) == 1 { // a second blank
+			if rich && zzvp.Choose("sep2", 3) == 1 { // a second blank
 				data = append(data, ' ')
 			}
 		}
 		data = append(data, '0')
-		switch zzvp.Choose("eol", 3) {
+		eol := 0
+		if rich {
+			eol = zzvp.Choose("eol", 3)
+		}
+		switch eol {
 		case 0:
 			data = append(data, '\n')
 		case 1:
@@ -73,6 +78,13 @@ func VP_C13_dimacs() {
 		}
 		orig = append(orig, cl)
 	}
+	return
+}
+
+// VP_C13_dimacs: ParseCNF on a DIMACS text whose body bytes are symbolic; the
+// parsed problem must have exactly the models of the text.
+func VP_C13_dimacs() {
+	data, orig, declared, m := vpGenDimacs()
 	pb, err := ParseCNF(&vpReader{data: data})
 	zzvp.Assert(err == nil, "ParseCNF returned an error on a well-formed file")
 	if err != nil {
@@ -207,4 +219,27 @@ func VP_C13_opb() {
 		zzvp.Assert(pb.minLits == nil, "an objective appeared from nowhere")
 	}
 	zzvp.Reach("opb")
+}
+
+// VP_C01_cnf_dimacs: DIMACS stream (symbolic body bytes) -> ParseCNF -> New -> Solve vs truth table.
+func VP_C01_cnf_dimacs() {
+	data, orig, declared, _ := vpGenDimacs()
+	pb, err := ParseCNF(&vpReader{data: data})
+	zzvp.Assert(err == nil, "ParseCNF returned an error on a well-formed file")
+	if err != nil {
+		return
+	}
+	spec := vpCNFSat(orig, declared)
+	s := New(pb)
+	st := s.Solve()
+	zzvp.Assert(st == Sat || st == Unsat, "status is Sat or Unsat, never Indet")
+	zzvp.Assert(zzvp.Eqv(st == Sat, spec), "the verdict on the DIMACS stream is wrong")
+	if st == Sat {
+		model := s.Model()
+		zzvp.Assert(len(model) == declared, "model has one value per declared variable")
+		zzvp.Assert(vpModelHolds(orig, model), "model does not satisfy the clauses of the stream")
+		zzvp.Reach("sat")
+	} else {
+		zzvp.Reach("unsat")
+	}
 }
